@@ -48,8 +48,15 @@ func exprHelperRound(pkgs []*packages.Package, overlay map[string][]byte, testId
 				if !ok || len(ret.Results) != 1 {
 					continue
 				}
-				if fd.Type.Results == nil || len(fd.Type.Results.List) != 1 || len(fd.Type.Results.List[0].Names) > 1 {
+				if fd.Type.Results == nil {
 					continue
+				}
+				if len(fd.Type.Results.List) != 1 || len(fd.Type.Results.List[0].Names) > 1 {
+					// several results: only where the expression is one call whose results are
+					// handed on as they are (a call may stand wherever the helper's call stood)
+					if _, isCall := ret.Results[0].(*ast.CallExpr); !isCall {
+						continue
+					}
 				}
 				if anchorFuncs[funcKey(pkg.PkgPath, fd)] || testIdents[pkg.PkgPath+"\x00"+fd.Name.Name] || (moved[strings.ToLower(fd.Name.Name)] != "" && moved[strings.ToLower(fd.Name.Name)] != pkg.PkgPath) {
 					continue
@@ -215,7 +222,7 @@ func exprHelperRound(pkgs []*packages.Package, overlay map[string][]byte, testId
 								break
 							}
 							a := call.Args[ai]
-							if !isSimpleOperand(a) {
+							if !isSimpleOperand(a) && !forwardsInOrder(h.pkg.TypesInfo, h.fd, h.expr) {
 								okArgs = false
 							}
 							if pobj := h.pkg.TypesInfo.Defs[nm]; pobj != nil {
@@ -416,4 +423,56 @@ func originOf(o types.Object) types.Object {
 		return x.Origin()
 	}
 	return o
+}
+
+// forwardsInOrder: the expression of the helper uses every parameter exactly
+// once, in the order of the parameter list, and apart from one outermost call
+// contains no call, receive or function literal: then arguments of any shape
+// can be put in the parameters' places without changing what is evaluated, or
+// in which order.
+func forwardsInOrder(info *types.Info, fd *ast.FuncDecl, expr ast.Expr) bool {
+	var params []types.Object
+	if fd.Recv != nil {
+		return false
+	}
+	if fd.Type.Params != nil {
+		for _, fl := range fd.Type.Params.List {
+			for _, nm := range fl.Names {
+				params = append(params, info.Defs[nm])
+			}
+		}
+	}
+	next := 0
+	ok := true
+	depth := 0
+	ast.Inspect(expr, func(n ast.Node) bool {
+		switch x := n.(type) {
+		case *ast.CallExpr:
+			depth++
+			if depth > 1 {
+				// conversions are fine, other calls are not
+				if tv, isT := info.Types[x.Fun]; !isT || !tv.IsType() {
+					ok = false
+				}
+			}
+		case *ast.FuncLit:
+			ok = false
+		case *ast.UnaryExpr:
+			if x.Op == token.ARROW {
+				ok = false
+			}
+		case *ast.Ident:
+			o := info.Uses[x]
+			for i, p := range params {
+				if o != nil && o == p {
+					if i != next {
+						ok = false
+					}
+					next++
+				}
+			}
+		}
+		return ok
+	})
+	return ok && next == len(params)
 }
